@@ -433,6 +433,8 @@ def make_ops(cfg):
 
         return do, spec
 
+    # (not for the truncated-power-law configuration: replacing an out-of-bounds length scale by the default changes the derived
+    #  variance, which the library then checks against the variance bounds -- consistent, but outside this reference)
     @op("bounds_len", [])
     def _():
         llo, lhi = 0.25, 4.0
@@ -475,6 +477,8 @@ def make_ops(cfg):
 
             return do, spec
 
+    if cfg["cls"].startswith("TPL"):
+        ops.pop("bounds_len", None)
     return ops
 
 
